@@ -1955,7 +1955,7 @@ def authz_l3(run, driver, label="L3 random program"):
         # the documented workflow continues after Authorize: a query sees exactly the authority-level facts (validated by TLC
         # below), and a second Authorize gives the same outcome and leaves the same facts (only judged when the first
         # evaluation completed: ok / denied / nomatch)
-        if len(ob) >= 7 and ob[2].get("v") in ("ok", "denied", "nomatch"):
+        if run.prop in ("C03", "C12") and len(ob) >= 7 and ob[2].get("v") in ("ok", "denied", "nomatch"):
             later = []
             q = c["script"][4]["q"]
             exp = sorted(tuple(f[1:]) for f in rows(ob[3].get("rows")) if f[0] == q["b"][0][0] and len(f) == len(q["b"][0]))
@@ -2000,7 +2000,7 @@ def replay_authzgen(run, body):
     if validate_traces(run, "TraceAuthz", "TraceAuthz", ev, chunks=1):
         run.report(body["sig"], c, "authzgen", "replayed: TraceAuthz rejects the observation")
     ob = o["obs"]
-    if len(ob) >= 7 and ob[2].get("v") in ("ok", "denied", "nomatch"):
+    if run.prop in ("C03", "C12") and len(ob) >= 7 and ob[2].get("v") in ("ok", "denied", "nomatch"):
         q = c["script"][4]["q"]
         exp = sorted(tuple(f[1:]) for f in rows(ob[3].get("rows")) if f[0] == q["b"][0][0] and len(f) == len(q["b"][0]))
         if ob[4].get("v") != "ok" or rows(ob[4].get("rows")) != exp or vclass(ob[5].get("v")) != ob[2].get("v") or rows(ob[6].get("rows")) != rows(ob[3].get("rows")):
